@@ -279,6 +279,88 @@ theorem handshake_after_reload_uses_new (pki : Pki Cert Ca Name) (l : Listener (
     after.sessions.getLast?.map (handshakeWith pki cc name) = some (handshakeWith pki cc name new) := by
   simp [Listener.step]
 
+/-! ### Returning clients (a client that keeps its TLS session store across connections)
+
+"Later handshakes" includes those of clients that were connected before the reload and come back
+offering the session ticket they were given.  Every stored configuration owns a fresh session cache
+(`RListener`), so such a ticket is unknown to the configuration in force after a reload: the
+handshake is a full one, judged by the new identity and the new client-CA policy. -/
+
+/-- The model with session caches refines the listener model: forgetting caches and handshake kinds,
+    it is the same run, so `sessions_preserved`, `current_eq_lastStored` and
+    `reload_affects_only_later` speak about it too. -/
+theorem rlistener_refines_listener {Id : Type} (l : RListener Id) (evs : List (REv Id)) :
+    (l.run evs).toListener = l.toListener.run (evs.map REv.forget) := by
+  induction evs generalizing l with
+  | nil => rfl
+  | cons e es ih =>
+    simp only [RListener.run, Listener.run, List.foldl_cons, List.map_cons] at ih ⊢
+    rw [ih]
+    congr 1
+    cases e with
+    | reload n => cases n <;> rfl
+    | accept t => simp [RListener.step, RListener.toListener, Listener.step, REv.forget]
+
+/-- Cache numbers only grow, and the cache in the `ArcSwap` always belongs to a configuration that
+    was built. -/
+theorem rlistener_caches_monotone {Id : Type} (l : RListener Id) (evs : List (REv Id)) (h : l.WF) :
+    (l.run evs).WF ∧ l.cache ≤ (l.run evs).cache ∧ l.built ≤ (l.run evs).built := by
+  induction evs generalizing l with
+  | nil => exact ⟨h, Nat.le_refl _, Nat.le_refl _⟩
+  | cons e es ih =>
+    have hstep : (l.step e).WF ∧ l.cache ≤ (l.step e).cache ∧ l.built ≤ (l.step e).built := by
+      unfold RListener.WF at h ⊢
+      cases e with
+      | reload n => cases n <;> simp only [RListener.step] <;> omega
+      | accept t => simp only [RListener.step]; omega
+    obtain ⟨h1, h2, h3⟩ := ih (l.step e) hstep.1
+    simp only [RListener.run, List.foldl_cons] at h1 h2 h3 ⊢
+    exact ⟨h1, Nat.le_trans hstep.2.1 h2, Nat.le_trans hstep.2.2 h3⟩
+
+/-- A handshake is resumed only with the ticket of the very configuration that serves it — i.e.
+    only for a client that this same configuration (same identity, same client-CA policy) has
+    already admitted. -/
+theorem resumed_iff_ticket_of_current {Id : Type} (l : RListener Id) (t : Option Nat) :
+    l.kindFor t = .resumed ↔ t = some l.cache := by
+  unfold RListener.kindFor
+  split <;> simp_all
+
+/-- After a successful reload, whatever happens next (accepts, further reloads, failed reloads), a
+    client offering a ticket issued before the reload (by any configuration built until then) does a
+    full handshake. -/
+theorem returning_client_full_after_reload {Id : Type} (l : RListener Id) (new : Id)
+    (mid : List (REv Id)) (t : Nat) (ht : t < l.built) :
+    ((l.step (.reload (some new))).run mid).kindFor (some t) = .full := by
+  have hwf : (l.step (.reload (some new))).WF := by
+    unfold RListener.WF; simp only [RListener.step]; omega
+  obtain ⟨_, hc, _⟩ := rlistener_caches_monotone (l.step (.reload (some new))) mid hwf
+  simp only [RListener.step] at hc
+  unfold RListener.kindFor
+  rw [if_neg]
+  intro heq
+  have : t = ((l.step (.reload (some new))).run mid).cache := Option.some.inj heq
+  simp only [RListener.step] at this
+  omega
+
+/-- … and is therefore judged by the configuration in force when it comes back: its outcome is
+    `handshakeWith` against that configuration (new certificate, new client-CA policy), which is
+    `new` itself as long as nothing else was stored in between. -/
+theorem returning_client_judged_under_new (pki : Pki Cert Ca Name) (l : RListener (ServerConfig Cert Ca))
+    (new : ServerConfig Cert Ca) (mid : List (REv (ServerConfig Cert Ca))) (t : Nat)
+    (ht : t < l.built) (cc : ClientConfig Cert Ca) (name : Name) :
+    let l' := (l.step (.reload (some new))).run mid
+    l'.acceptOutcome pki cc name (some t) = handshakeWith pki cc name l'.current ∧
+    l'.current = lastStored new (mid.map REv.forget) := by
+  refine ⟨?_, ?_⟩
+  · simp only [RListener.acceptOutcome, returning_client_full_after_reload l new mid t ht]
+  · have := congrArg Listener.current (rlistener_refines_listener (l.step (.reload (some new))) mid)
+    rw [current_eq_lastStored] at this
+    exact this
+
+/-- A client without a remembered session always does a full handshake. -/
+theorem fresh_client_full {Id : Type} (l : RListener Id) : l.kindFor none = .full := by
+  simp [RListener.kindFor]
+
 /-! ### Non-vacuity: concrete configurations over the finite PKI of the driver
 
 CA labels: 1 = the CA the client trusts, 2 = another CA, 9 = a self-signed leaf's own label,
@@ -334,6 +416,23 @@ example : ∀ e ∈ [Ev.accept, Ev.reload (none : Option Nat)], e = .accept ∨ 
   intro e he
   simp only [List.mem_cons, List.mem_nil_iff, or_false] at he
   exact he
+-- returning client: admitted under identity 10 (ticket of cache 0), resumes while 10 is in force
+-- (also across a failed reload), does a full handshake after the reload to 20, and resumes again
+-- with the ticket of cache 1; `rlistener_caches_monotone`'s hypothesis holds initially
+example : ((RListener.init 10).run [.accept none, .accept (some 0), .reload none, .accept (some 0),
+    .reload (some 20), .accept (some 0), .accept (some 1)]).sessions =
+    [(10, .full), (10, .resumed), (10, .resumed), (20, .full), (20, .resumed)] := by decide
+example : (RListener.init 10).WF ∧ 0 < (RListener.init 10).built := by
+  simp [RListener.WF, RListener.init]
+-- the client CA is switched on by a reload: a returning client without certificate, admitted
+-- before, is refused afterwards although it offers its old ticket
+example :
+    let l := (RListener.init (⟨srvGood, .noClientAuth⟩ : ServerConfig Concrete.Cert Concrete.Ca)).run
+      [.accept none, .reload (some ⟨srvGood, .webpki [5] true⟩)]
+    let cc := makeClientConfig P (client true "server.test" none).toClientArgs
+    (RListener.init (⟨srvGood, .noClientAuth⟩ : ServerConfig Concrete.Cert Concrete.Ca)).acceptOutcome P cc
+        "server.test" none = .ok ∧
+    l.acceptOutcome P cc "server.test" (some 0) = .serverRejects := by decide
 
 end Examples
 
